@@ -572,7 +572,8 @@ func presentable(gt *gType, p reflect.Value) bool {
 			s = strings.Repeat("x", v.Len())
 		default:
 			s = "1"
-			if fs[i].omit && v.IsZero() {
+			// a pointer field is empty when it is nil (handled above), whatever it points to: *uint32 -> 0 is written "0"
+			if fs[i].omit && vs[i].Kind() != reflect.Ptr && v.IsZero() {
 				return "", false
 			}
 			return s, true
